@@ -17,7 +17,7 @@ Every generated session is run FOUR ways: {extracted model, real implementation}
        counterfactual switch mark_first is run on every session; a session on which it changes the observable
        would be a witness of (e).  None is known (see the report): the count is recorded in the evidence.
 """
-import json, os, sys, copy, time
+import json, os, sys, copy, time, subprocess
 import lib, loop_impl, loop_gen, glib_impl
 import c20_diff as D
 
@@ -106,16 +106,22 @@ class FourWay(object):
             self.cases.append(c); self.impl_m.append(i); self.impl_g.append(g)
         self.model_m, self.model_g, self.model_mf = [], [], []
         CH = 2000
-        for a in range(0, len(self.cases), CH):
-            self.model_m += lib.model_run("loop", self.cases[a:a + CH])
-            self.model_g += lib.model_run("gloop", self.cases[a:a + CH])
-            self.model_mf += lib.model_run("gloopmf", self.cases[a:a + CH])
+        try:
+            for a in range(0, len(self.cases), CH):
+                self.model_m += lib.model_run("loop", self.cases[a:a + CH], timeout=300)
+                self.model_g += lib.model_run("gloop", self.cases[a:a + CH], timeout=300)
+                self.model_mf += lib.model_run("gloopmf", self.cases[a:a + CH], timeout=300)
+        except subprocess.TimeoutExpired as e:
+            raise lib.ModelError("model runner timed out: %s" % e)
         # sessions the real GLib loop did not finish: legitimate only if the GLib model does not finish them either
         self.unfinished = []
         # (bounded fuel — the interpreter's cost grows with the square of the trace —: the model must run out of fuel too
         #  and the two traces must agree as far as both go)
         if self.suspect:
-            ms = lib.model_run("gloop", [[1500, c[1], c[2]] for c, _, _ in self.suspect])
+            try:
+                ms = lib.model_run("gloop", [[1500, c[1], c[2]] for c, _, _ in self.suspect], timeout=300)
+            except subprocess.TimeoutExpired as e:
+                raise lib.ModelError("model runner timed out on the sessions the GLib loop does not finish: %s" % e)
             for (c, i, g), m in zip(self.suspect, ms):
                 k = min(len(g[1]), len(m[1]))
                 if 5 in m[0] and g[1][:k] == m[1][:k] and k > 50:
